@@ -1,9 +1,64 @@
 import Driver.Codec
-/-! Protocol ops of the `Format` cluster: decode, call the model, print. -/
+import XdocModel.Format
+import XdocModel.Dump
+/-!
+Protocol ops of the `Format` cluster: decode, call the model, print.
+
+* `ndigits <n>`
+* `add_line_numbers <lines> <start> <nd|N>`
+* `indent <text> <prefix>`
+* `format_part <bits linenos,want,partnos,prefix> <startline> <nd|N> <exec> <want|N> <orig|N> <offset> <partno|N>`
+* `format_src <bits linenos,want,offset,prefix,partnos> <lineno> (<exec> <want|N> <orig|N> <offset>)*`
+  (part numbers are assigned 0,1,… as `DocTest._parse` does)
+* `from_parts (<exec> <want|N> <orig|N> <offset>)*` : the lines `doctest_from_parts` joins
+* `dump (<modname> <callname> <node> <undefined> <nparts> (<exec> <want|N>)^nparts)*`
+-/
 namespace Xdoc.Driver
-open Xdoc
+open Xdoc Format Dump
+
+def decOptList (f : String) : Option (List Str) := if f == "N" then none else some (decStrList f)
+def decOptNat (f : String) : Option Nat := if f == "N" then none else some f.toNat!
+
+def decFmtParts : Nat → List String → List Part
+  | i, ex :: want :: orig :: off :: rest =>
+    { execLines := decStrList ex, wantLines := decOptList want, origLines := decOptList orig,
+      lineOffset := off.toNat!, partno := some i } :: decFmtParts (i + 1) rest
+  | _, _ => []
+
+def decDumpParts : Nat → List String → List Part × List String
+  | 0, rest => ([], rest)
+  | n + 1, ex :: want :: rest =>
+    let (ps, r) := decDumpParts n rest
+    ({ execLines := decStrList ex, wantLines := decOptList want } :: ps, r)
+  | _, rest => ([], rest)
+
+def decExamples : Nat → List String → List Dump.Example
+  | 0, _ => []
+  | fuel + 1, m :: c :: node :: und :: n :: rest =>
+    let (ps, r) := decDumpParts n.toNat! rest
+    { modname := decStr m, callname := decStr c, node := decStr node, undefined := decStrList und, parts := ps } ::
+      decExamples fuel r
+  | _, _ => []
+
+private def bit (s : String) (i : Nat) : Bool := (s.toList.getD i '0') == '1'
 
 def opsFormat : List String → Option String
+  | ["ndigits", n] => some (toString (nDigits n.toNat!))
+  | ["add_line_numbers", ls, start, nd] =>
+    some (encStrList (addLineNumbers (decStrList ls) start.toNat! (decOptNat nd)))
+  | ["indent", t, p] => some (encStr (indent (decStr t) (decStr p)))
+  | ["format_part", bits, startline, nd, ex, want, orig, off, partno] =>
+    let p : Part := { execLines := decStrList ex, wantLines := decOptList want, origLines := decOptList orig,
+                      lineOffset := off.toNat!, partno := decOptNat partno }
+    let o : FmtOpts := { linenos := bit bits 0, want := bit bits 1, partnos := bit bits 2, prefix_ := bit bits 3,
+                         startline := startline.toNat!, nDigits := decOptNat nd }
+    some (encStr (formatPart p o))
+  | "format_src" :: bits :: lineno :: rest =>
+    let o : SrcOpts := { linenos := bit bits 0, want := bit bits 1, offsetLinenos := bit bits 2,
+                         prefix_ := bit bits 3, partnos := bit bits 4 }
+    some (encStr (formatSrc (decFmtParts 0 rest) lineno.toNat! o))
+  | "from_parts" :: rest => some (encStrList (fromPartsLines (decFmtParts 0 rest)))
+  | "dump" :: rest => some (encStr (dumpModule (decExamples rest.length rest)))
   | _ => none
 
 end Xdoc.Driver
